@@ -50,8 +50,10 @@ def instances(tier, seed):
     # the in-cell clause and the bookkeeping are decided here)
     add("place:S6:single->FCl-long:axis0", struct='S6', repl='single->FCl-long', axes=[0], other=(0, 0.3, 0.4), bound=1e9, cost=20)
     # far from the origin, pseudo-symmetric search motif, every random.choice outcome
-    add("place:S24:pseudo6->plusS:axis0:far-from-origin", struct='S24', repl='pseudo6->plusS', axes=[0], other=(0, 0.3, 0.4), cost=30)
-    add("place:S24t:pseudo6->plusS:axis2:far-from-origin:triclinic", struct='S24t', repl='pseudo6->plusS', axes=[2], other=(0.2, 0.3, 0), cost=30)
+    add("place:S24:pseudo6->plusS:axis0:far-from-origin", struct='S24', repl='pseudo6->plusS', axes=[0], other=(0, 0.03, 0.04), cost=30)
+    add("place:S24t:pseudo6->plusS:axis2:far-from-origin:triclinic", struct='S24t', repl='pseudo6->plusS', axes=[2], other=(0.02, 0.03, 0), cost=30)
+    add("place:S28:pseudoaxis5->plusS:axis1:far-from-origin:pseudo-symmetry-exchanging-axis-atoms", struct='S28', repl='pseudoaxis5->plusS', axes=[1], other=(0.02, 0, 0.01), cost=30)
+    add("place:S28t:pseudoaxis5->plusS:axis0:far-from-origin:triclinic", struct='S28t', repl='pseudoaxis5->plusS', axes=[0], other=(0, 0.02, 0.03), cost=30)
     # three-step history: replace, replicate, replace again on the supercell
     add("seq:S1:replace-replicate-replace", family='seq', struct='S1', repl='chiral4->CHSP', repl2='chiralCHSP->chiral4', dims=(2, 1, 1), axes=[1], other=(0.4, 0, 0.8), cost=90)
     # joint rigid motion of both patterns
